@@ -259,7 +259,7 @@ class H(Harness):
     ID = 'C09'
     TIE_IMPORT = 'From EpyV Require Import Tie.C09 Model.Bbt.'
     CHECK_FN = 'EpyV.Tie.C09.check_case'
-    QUICK_N = 600
+    QUICK_N = 450
     THOROUGH_N = 4000
     CASE_TIMEOUT = 30
     ALLOWED_AXIOMS = set()
@@ -362,7 +362,18 @@ class H(Harness):
             dump_at = sorted(set(rnd.sample(range(L_), 6) + [L_ - 1]))
         draws = [j for j, o in enumerate(ops) if o[0] == 'Dr']
         dist_at = sorted(set(rnd.sample(draws, min(2, len(draws))) + [L_ - 1]))
-        return {'kind': kind, 'ops': ops, 'dump_at': dump_at, 'dist_at': dist_at}
+        c = {'kind': kind, 'ops': ops, 'dump_at': dump_at, 'dist_at': dist_at, 'cls': rnd.choice(['DrawSet', 'DrawSet', 'Locus'])}
+        if rnd.random() < 0.1:
+            # DrawSet(including, excluding): the constructor adds the elements in set-iteration order
+            inc = [rnd.choice(uni) for _ in range(rnd.randrange(0, 25))]
+            exc = [rnd.choice(uni) for _ in range(rnd.randrange(0, 6))]
+            c['cls'] = 'DrawSet'
+            c['init'] = {'including': [list(x) if isinstance(x, tuple) else x for x in inc],
+                         'excluding': [list(x) if isinstance(x, tuple) else x for x in exc] if rnd.random() < 0.7 else None}
+            c['ops'] = [['I', None]] + ops
+            c['dump_at'] = [0] + [j + 1 for j in dump_at]
+            c['dist_at'] = [j + 1 for j in dist_at]
+        return c
 
     def gen_cases(self, tier, rnd, n):
         return [self._random_case(rnd, tier) for _ in range(n)]
@@ -400,14 +411,26 @@ class H(Harness):
 
     # ------------------------------------------------------------------ implementation side
     def execute(self, case):
-        from epydemic import DrawSet
+        from epydemic import DrawSet, Locus
         instrument()
         before = dict(_counts)
-        s = DrawSet()
+        init = case.get('init')
+        init_order = []
+        if init:
+            inc = [elem(x) for x in init['including']]
+            exc = None if init['excluding'] is None else [elem(x) for x in init['excluding']]
+            s = DrawSet(inc, exc)
+            # the same set built the same way iterates in the same order (CPython, PYTHONHASHSEED fixed)
+            os_ = set(inc)
+            if exc is not None:
+                os_.difference_update(set(exc))
+            init_order = list(os_)
+        else:
+            s = Locus('c09') if case.get('cls') == 'Locus' else DrawSet()
         dump_at = set(case['dump_at'])
         dist_at = set(case['dist_at'])
         steps = []
-        universe = sorted({elem(o[1]) for o in case['ops'] if o[0] in ('A', 'D', 'R', 'M')})
+        universe = sorted({elem(o[1]) for o in case['ops'] if o[0] in ('A', 'D', 'R', 'M')} | set(init_order))
         maxsize = 0
         methods = {}
         for i, (k, arg) in enumerate(case['ops']):
@@ -463,18 +486,22 @@ class H(Harness):
                     st['dist'] = [[list(o), str(p)] for o, p in sorted(dist.items(), key=lambda kv: repr(kv[0]))]
                     st['dist_depth'] = deepest
             steps.append(st)
-        return {'steps': steps, 'universe': universe, 'maxsize': maxsize,
+        return {'steps': steps, 'universe': universe, 'maxsize': maxsize, 'init_order': init_order,
                 'stats': {'ops': len(steps), 'rotations': _counts['rot'] - before['rot'],
                           'nested_rotations': _counts['nested'] - before['nested'],
                           'draws': sum(1 for o in case['ops'] if o[0] == 'Dr'),
                           'laws_brute_force': methods.get('brute', 0), 'laws_bottom_up': methods.get('bottom-up', 0),
                           'laws_methods_disagree': methods.get('brute-only', 0), 'laws_not_enumerable': methods.get('not-enumerable', 0),
-                          'pair_cases': 1 if case['kind'] == 'pair' else 0}}
+                          'pair_cases': 1 if case['kind'] == 'pair' else 0,
+                          'locus_cases': 1 if isinstance(s, Locus) else 0, 'constructor_cases': 1 if init else 0}}
 
     # ------------------------------------------------------------------ D
     def direct(self, case, obs):
         v = []
         ref = set()
+        init = case.get('init')
+        if init:      # DrawSet(including, excluding) holds including minus excluding
+            ref = {elem(x) for x in init['including']} - {elem(x) for x in (init['excluding'] or [])}
         uni = [elem(x) for x in obs['universe']]
 
         def bad(sig, i, detail):
@@ -561,6 +588,12 @@ class H(Harness):
 
     def to_coq(self, case, obs):
         terms = []
+        # the constructor is the sequence of adds in set-iteration order; it exposes no observation of
+        # its own (the first real step is an iteration with a full dump), so the results written here
+        # are what any set does after j+1 distinct adds
+        for j, x in enumerate(obs.get('init_order') or []):
+            terms.append('{| s_op := A %s; s_res := RUnit; s_reqs := []; s_len := %s; s_empty := false; s_dump := None |}'
+                         % (L.z(enc(elem(x))), L.nat(j + 1)))
         for (k, arg), st in zip(case['ops'], obs['steps']):
             if k in ('A', 'D', 'R'):
                 op = '%s %s' % (k, L.z(enc(elem(arg))))
@@ -586,6 +619,26 @@ class H(Harness):
         return {'kind': case['kind'], 'ops': case['ops'][:40], 'n_ops': len(case['ops']),
                 'final_iter': last.get('iter'), 'final_dump': last.get('dump'), 'final_dist': last.get('dist')}
 
+    def _api_inherited(self):
+        """every locus class shipped with epydemic uses DrawSet's set operations unchanged
+        (this is what makes 'and therefore every locus' true); returns the list of overrides found"""
+        import epydemic
+        from epydemic import DrawSet, TreeNode
+        api = ['add', 'discard', 'remove', 'draw', 'empty', '__contains__', '__len__', '__iter__']
+        found = []
+        todo = list(DrawSet.__subclasses__())
+        seen = set()
+        while todo:
+            c = todo.pop()
+            if c in seen:
+                continue
+            seen.add(c)
+            todo += c.__subclasses__()
+            found += ['%s.%s' % (c.__name__, m) for m in api if m in c.__dict__]
+        if not any(c.__name__ == 'Locus' for c in seen):
+            found.append('Locus is not a DrawSet')
+        return found
+
     # ------------------------------------------------------------------ level 2
     def extra_obligations(self, workdir, tier):
         """tie B level 2 on a fixed sample: the dumped implementation trees pass good_b and have the
@@ -600,8 +653,9 @@ class H(Harness):
             if 'harness_exception' in obs:
                 return [('tie-B-level2', False, obs['harness_exception'])]
             terms.append(self.to_coq(c, obs))
+        api = self._api_inherited()
         sub = os.path.join(workdir, 'level2')
         failing, errors = core.run_cases('C09L2', terms, self.TIE_IMPORT, 'EpyV.Tie.C09.check_case_l2', sub)
         ok = not failing and not errors
         detail = '' if ok else 'level-2 failing sample cases %s %s' % (failing[:10], [e[2][-500:] for e in errors[:1]])
-        return [('tie-B-level2', ok, detail)]
+        return [('tie-B-level2', ok, detail), ('loci-inherit-drawset-api', not api, api)]
